@@ -1,3 +1,4 @@
+mod apps;
 mod codec;
 mod util;
 
@@ -17,6 +18,7 @@ impl Executor for Stateless {
 
 fn engine(name: &str) -> Option<(fn(&mut Vec<String>, u64, bool), Box<dyn Executor>)> {
     match name {
+        "apps" => Some((apps::gen, Box::new(apps::Exec::new()))),
         "codec" => Some((codec::gen, Box::new(Stateless(codec::exec)))),
         _ => None,
     }
